@@ -36,11 +36,14 @@ PY = '/venv/bin/python'
 
 MODMAP = {'ud': {'m1': ('X', [0x66, 0x66]), 'm2': ('Y', [0x66, 0x66]), 'a1': ('X', [0x7A, 0x7A])},
           'src': {'m1': 'X', 'm2': 'Y', 'a1': 'Q'},
-          'co': {'m1': 'X', 'm2': 'Y', 'a1': 'Q'}}
+          'co': {'m1': 'X', 'm2': 'Y', 'a1': 'Q'},
+          # the BMC wrapper: m1 / m2 are the two modules of ONE component (BD..AA.. -> oaa00, BC..AA.. -> bsrc)
+          'osrc': {'m1': 'BD8DAA', 'm2': 'BC8AAA', 'a1': 'BD8DCC'}}
 NAMES = {'ud': {'m1': 'udparsers.x6666.x6666', 'm2': 'udparsers.y6666.y6666', 'a1': 'udparsers.x7a7a.x7a7a'},
          'src': {'m1': 'srcparsers.xsrc.xsrc', 'm2': 'srcparsers.ysrc.ysrc', 'a1': 'srcparsers.qsrc.qsrc'},
          'co': {'m1': 'calloutparsers.xcallouts.xcallouts', 'm2': 'calloutparsers.ycallouts.ycallouts',
-                'a1': 'calloutparsers.qcallouts.qcallouts'}}
+                'a1': 'calloutparsers.qcallouts.qcallouts'},
+         'osrc': {'m1': 'srcparsers.oaa00.oaa00', 'm2': 'srcparsers.bsrc.bsrc', 'a1': 'srcparsers.occ00.occ00'}}
 BEHSEL = {'ok': 0, 'nondict': 1, 'none': 2, 'raise': 3, 'importerror': 4}
 PROC = {'ok': 'FIX0001', 'nondict': 'FIXJUNK', 'none': 'NOSUCH1', 'raise': 'FIXBOOM', 'importerror': 'FIXIMPT'}
 
@@ -59,14 +62,19 @@ def cases(tier, seed, info):
     sim = [uniq[k] for k in sorted(uniq)]
     rng.shuffle(sim)
     rng.shuffle(two)
-    n2, ns = (120, 120) if tier == 'quick' else (2025, 4000)
+    # pairs where the second decode is a well-behaved consultation through the same cache: every way
+    # the first one can leave the cache behind is followed by every module it could affect
+    focused = [g for g in two if g['items'][0]['cache'] == g['items'][1]['cache'] and g['items'][1]['beh'] == 'ok']
+    rest = [g for g in two if g not in focused]
+    n2, ns = (60, 60) if tier == 'quick' else (len(rest), 4000)
     out = []
-    for k, g in enumerate(two[:n2] + sim[:ns]):
+    info['focused_pairs'] = len(focused)
+    for k, g in enumerate(focused + rest[:n2] + sim[:ns]):
         out.append(dict(kind='history', origin='tlc', seed=seed * 30011 + k, items=g['items']))
     info['tlc_histories_len2'] = len(two)
     info['tlc_histories_used'] = len(out)
     m = 25 if tier == 'quick' else 500
-    alphabet = [dict(cache=c, mod=mm, beh=b) for c in ('ud', 'src', 'co') for mm in ('m1', 'm2', 'a1')
+    alphabet = [dict(cache=c, mod=mm, beh=b) for c in ('ud', 'src', 'co', 'osrc') for mm in ('m1', 'm2', 'a1')
                 for b in BEHSEL]
     for k in range(m):
         items = []
@@ -100,6 +108,13 @@ def realise(rng, item, serial):
         creator = MODMAP['src'][mod]
         s = genpel.gen_src(rng, 'PS', ncallouts=-1, kind='other')
         s['words'][0][3] = (s['words'][0][3] & 0xF0) | BEHSEL[beh]
+        secs = [s]
+    elif c == 'osrc':
+        creator = 'O'
+        s = genpel.gen_src(rng, 'PS', ncallouts=-1, kind='BD')
+        s['ascii'] = encode.text(MODMAP['osrc'][mod] + '%02X' % rng.randrange(256), 32, 0x20)
+        s['words'][0][3] = (s['words'][0][3] & 0xF0) | BEHSEL[beh]
+        s['comp'] = [0x35, 0x00]
         secs = [s]
     elif c == 'co':
         creator = MODMAP['co'][mod]
@@ -159,15 +174,25 @@ def fresh_digest(data, plugins=True, every=True):
 
 
 def cache_projection():
-    import pel.peltool.parse_user_data as pud
-    import pel.peltool.src as srcmod
-    dicts = {'ud': pud.userDataParsers, 'src': srcmod.srcParsers, 'co': srcmod.calloutParsers}
+    """-> (projection, observable): the caches are internal state; when they are not found in the shape
+    the model knows (module-level dicts keyed by module name) the projection is marked unobservable"""
+    import sys
+    try:
+        import pel.peltool.parse_user_data as pud
+        import pel.peltool.src as srcmod
+        osrc = sys.modules.get('srcparsers.osrc.osrc')
+        dicts = {'ud': pud.userDataParsers, 'src': srcmod.srcParsers, 'co': srcmod.calloutParsers,
+                 'osrc': osrc.osrcParsers if osrc is not None else {}}
+        if not all(isinstance(d, dict) for d in dicts.values()):
+            raise AttributeError('cache is not a dict')
+    except AttributeError:
+        return {c: {m: 'unseen' for m in NAMES[c]} for c in NAMES}, False
     out = {}
     for c, d in dicts.items():
         out[c] = {}
         for m, name in NAMES[c].items():
             out[c][m] = 'unseen' if name not in d else ('none' if d[name] is None else 'module')
-    return out
+    return out, True
 
 
 def _history(case):
@@ -197,7 +222,7 @@ def _history(case):
             # the same SRC then consults the SRC parser of that creator (well-behaved for these words)
             consults = [it, dict(cache='src', mod=it['mod'], beh='ok')]
         steps.append(dict(item=it, consults=consults, pel=data.hex()[:64] + ':%d' % len(data), digest=dg, fresh=fresh_digest(data),
-                          caches=cache_projection(), foreign=foreign))
+                          caches=cache_projection()[0], caches_ok=cache_projection()[1], foreign=foreign))
     seams.clear_plugin_caches(unload=True)
     return [dict(kind='history', shape_ok=True, origin=case['origin'], steps=steps)]
 
@@ -210,7 +235,7 @@ def _dir(case):
     os.makedirs(d)
     seams.install_fixture_plugins()
     seams.clear_plugin_caches(unload=True)
-    alphabet = [dict(cache=c, mod=mm, beh=b) for c in ('ud', 'src', 'co') for mm in ('m1', 'm2') for b in BEHSEL]
+    alphabet = [dict(cache=c, mod=mm, beh=b) for c in ('ud', 'src', 'co', 'osrc') for mm in ('m1', 'm2') for b in BEHSEL]
     files = []
     for k in range(case['n']):
         it = rng.choice(alphabet) if k % 2 else dict(cache='other', mod=rng.choice(['e500', 'plain', 'lp']), beh='-')
